@@ -184,7 +184,8 @@ def gen_sequence(seed, i):
         if t < 0.5 or j not in constructed:
             spell = rng.choice(["2d", "2d", "1d", "list"])
             ops.append(dict(op="construct", i=j, D=insts[j]["D"], options=gen_overrides(rng, insts[j]["D"], with_runs), spell=spell,
-                            no_options=rng.random() < 0.08, x0_on_bound=rng.random() < 0.3))
+                            no_options=rng.random() < 0.08, x0_on_bound=rng.random() < 0.3,
+                            geom=rng.choice(["sym", "sym", "poswide", "mixed"])))
             constructed.add(j)
         elif t < 0.62:
             bad = rng.choice(["max_fun_eval", "MaxIter", "tolmesh", "random-seed", "display ", "nsearch", "tol_mesh_", "useroptionz"])
@@ -239,11 +240,21 @@ def execute(seq):
             user = dict(op["options"])
             if k == "construct_bad":
                 user[op["bad"]] = 1
-            x0 = np.linspace(-0.5, 0.5, D).reshape(1, D)
+            geom = op.get("geom", "sym")
+            if geom == "sym":
+                x0 = np.linspace(-0.5, 0.5, D).reshape(1, D)
+                lb, ub = -5.0 * np.ones((1, D)), 5.0 * np.ones((1, D))
+                plb, pub = -2.0 * np.ones((1, D)), 2.0 * np.ones((1, D))
+            else:
+                # positive bounds spanning decades: the log transform is applied (poswide: all coordinates, mixed: every other one)
+                logc = np.array([(geom == "poswide") or (j % 2 == 0) for j in range(D)])
+                lb = np.where(logc, 0.01, -5.0).reshape(1, D).astype(float)
+                ub = np.where(logc, 1000.0, 5.0).reshape(1, D).astype(float)
+                plb = np.where(logc, 0.1, -2.0).reshape(1, D).astype(float)
+                pub = np.where(logc, 100.0, 2.0).reshape(1, D).astype(float)
+                x0 = np.where(logc, 3.0, 0.25).reshape(1, D).astype(float)
             if op.get("x0_on_bound"):
-                x0[0, 0] = -5.0        # on the hard bound: the constructor moves it inside (a copy, never the caller's array)
-            lb, ub = -5.0 * np.ones((1, D)), 5.0 * np.ones((1, D))
-            plb, pub = -2.0 * np.ones((1, D)), 2.0 * np.ones((1, D))
+                x0[0, 0] = lb[0, 0]    # on the hard bound: the constructor moves it inside (a copy, never the caller's array)
             sp = op.get("spell", "2d")
             if sp == "1d":
                 x0, lb, ub, plb, pub = (a.reshape(-1) for a in (x0, lb, ub, plb, pub))
